@@ -987,7 +987,17 @@ def gen_queue_fns():
         raise TranslateError(f"bft/src/lib.rs: {e}")
 
 
+def gen_pool_fns():
+    sys.path.insert(0, os.path.dirname(os.path.abspath(__file__)))
+    import translate_pool
+    try:
+        return translate_pool.gen(strip_comments(read("node/components/network/src/pool.rs")))
+    except translate_pool.TErr as e:
+        raise TranslateError(f"pool.rs: {e}")
+
+
 TARGETS = {
+    "PoolFns": gen_pool_fns,
     "QueueFns": gen_queue_fns,
     "LimiterFns": gen_limiter_fns,
     "AddrFns": gen_addr_fns,
